@@ -108,4 +108,50 @@ theorem cf_foldl (o : SlotMap) (f : Nat) : ∀ (rest done : List (Nat × Nat)) (
             omega
           · simp at h1 h2; rw [h1, h2]
 
+
+/-! ### `bijection_from_fresh_to` -/
+
+def bfStep (acc : SlotMap × Nat) (x : Nat) : SlotMap × Nat := (insert acc.1 acc.2 x, acc.2 + 4)
+
+theorem bijectionFromFreshTo_eq (s : List Nat) (f : Nat) : bijectionFromFreshTo s f = s.foldl bfStep ([], f) := rfl
+
+structure BFInv (f : Nat) (done : List Nat) (acc : SlotMap × Nat) : Prop where
+  wf : WF acc.1
+  cnt : acc.2 = f + 4 * done.length
+  get : ∀ i, SlotMap.get acc.1 (f + 4 * i) = done[i]?
+  keys : ∀ k v, SlotMap.get acc.1 k = some v → ∃ i, i < done.length ∧ k = f + 4 * i
+
+theorem bf_foldl (f : Nat) : ∀ (rest done : List Nat) (acc : SlotMap × Nat),
+    BFInv f done acc → BFInv f (done ++ rest) (rest.foldl bfStep acc) := by
+  intro rest
+  induction rest with
+  | nil => intro done acc h; simpa using h
+  | cons x t ih =>
+    intro done acc h
+    rw [List.foldl_cons]
+    have := ih (done ++ [x]) (bfStep acc x) ?_
+    · simpa using this
+    · unfold bfStep
+      refine ⟨wf_insert h.wf _ _, by simp [h.cnt]; omega, ?_, ?_⟩
+      · intro i
+        simp only
+        rw [get_insert h.wf, h.cnt]
+        by_cases hi : i = done.length
+        · subst hi; simp
+        · have hne : f + 4 * i ≠ f + 4 * done.length := by omega
+          simp only [hne, if_false]
+          rw [h.get i]
+          rcases Nat.lt_or_ge i done.length with hlt | hge
+          · rw [List.getElem?_append_left hlt]
+          · have hgt : done.length < i := by omega
+            rw [List.getElem?_eq_none (by omega), List.getElem?_eq_none (by simp; omega)]
+      · intro k v hk
+        simp only at hk
+        rw [get_insert h.wf, h.cnt] at hk
+        by_cases hkk : k = f + 4 * done.length
+        · exact ⟨done.length, by simp, hkk⟩
+        · simp only [hkk, if_false] at hk
+          obtain ⟨i, hi, hki⟩ := h.keys k v hk
+          exact ⟨i, by simp; omega, hki⟩
+
 end SV.SlotMap
